@@ -674,6 +674,8 @@ class Engine:
                 st.env[m] = self.fresh_like(old, '%s_%s' % (m, tag), taint=t_or(old.taint, taints.get(m, FALSE)))
                 if hasattr(st.env[m], '_at'):
                     st.assume(st.env[m].n >= 0)
+                if self.hooks and hasattr(self.hooks, 'havoc_ghost_value') and isinstance(st.env[m], Obj):
+                    st.env[m].ghost = self.hooks.havoc_ghost_value(self, st, old)
                 if ghosts and ghosts.get(m) is not None and not isinstance(st.env[m], (Num, BoolV)):
                     try:
                         st.env[m].ghost = ghosts[m]
